@@ -117,7 +117,8 @@ Definition si_gors (l : list si_res) : bool := existsb sr_gor l.
    The init programs of run() (the code as it is, with the two round-4 fixes), by component kind.
    ===================================================================================================== *)
 Inductive si_upk := SiUpSock | SiUpLazy.      (* quic / doq / h3: UDP socket at construction; the others dial lazily *)
-Inductive si_srvk := SiSrvUdp | SiSrvTcp | SiSrvGnet | SiSrvHttp | SiSrvFast | SiSrvTls | SiSrvHttps | SiSrvQuic.
+Inductive si_srvk := SiSrvUdp | SiSrvUdpN | SiSrvTcp | SiSrvGnet | SiSrvHttp | SiSrvFast | SiSrvTls | SiSrvHttps | SiSrvQuic.
+(* SiSrvUdpN: udp.threads >= 2: one socket per thread, all with SO_REUSEPORT; a later ListenPacket failing closes the earlier ones *)
 
 Inductive si_kind :=
 | SiKMetrics
@@ -157,6 +158,7 @@ Definition si_prog_of (pinned : bool) (k : si_kind) : si_prog :=
       si_chk ::                                                  (* 0 the protocol switch of startServer *)
       match s with
       | SiSrvUdp | SiSrvTcp | SiSrvGnet | SiSrvFast => [si_acq 1 true; si_reg]
+      | SiSrvUdpN => [si_acq 1 true; si_acq 1 true; si_reg]       (* the loop of startUdpServer: s.Close() on error *)
       | SiSrvHttp => [si_chk; si_acq 1 true; si_reg]             (* http2.ConfigureServer; listen *)
       | SiSrvTls => [si_chk; si_acq 1 true; si_reg]              (* makeTlsConfig; listen *)
       | SiSrvHttps => [si_chk; si_chk; si_acq 1 true; si_reg]    (* http2; makeTlsConfig; listen *)
@@ -176,7 +178,9 @@ Inductive si_fault :=
 | SfInUse | SfProto | SfBadAddr
 | SfNoCert | SfCertOnly | SfKeyOnly | SfCertMissing | SfCertGarbage | SfMismatch | SfCaMissing | SfCaGarbage | SfVccNoCa
 | SfNoTag | SfDupTag | SfNoAddr | SfScheme | SfBadTag
-| SfNoFile | SfBadData | SfNoSet | SfNoUp | SfNoMarker | SfBadMarker | SfBadRedis.
+| SfNoFile | SfBadData | SfNoSet | SfNoUp | SfNoMarker | SfBadMarker | SfBadRedis
+| SfHeldByRouter (rp : bool).   (* the address is held by ANOTHER INSTANCE of the router with the same listener;
+                                  rp: socket.so_reuseport is configured explicitly (on both) *)
 
 (* makeTlsConfig(cfg, requireCert) rejects: *)
 Definition si_tls_rejects (require_cert : bool) (f : si_fault) : bool :=
@@ -190,9 +194,22 @@ Definition si_tls_rejects (require_cert : bool) (f : si_fault) : bool :=
 
 Definition si_is_listen_fault (f : si_fault) : bool := match f with SfInUse | SfBadAddr => true | _ => false end.
 
+(* the statement of a listener's init that binds the address (the first one for udp.threads >= 2) *)
+Definition si_listen_stmt (s : si_srvk) : nat :=
+  match s with
+  | SiSrvUdp | SiSrvUdpN | SiSrvTcp | SiSrvGnet | SiSrvFast => 1
+  | SiSrvHttp | SiSrvTls | SiSrvQuic => 2
+  | SiSrvHttps => 3
+  end.
+(* listeners whose socket options come from the configuration (socket.so_reuseport): startQuicServer and the
+   metrics endpoint use a plain ListenPacket / Listen *)
+Definition si_applies_sockopts (s : si_srvk) : bool := match s with SiSrvQuic => false | _ => true end.
+(* startUdpServer: if threads > 1 { socketOpts.SO_REUSEPORT = true } *)
+Definition si_threads_reuseport (s : si_srvk) : bool := match s with SiSrvUdpN => true | _ => false end.
+
 Definition si_fault_stmt (k : si_kind) (f : si_fault) : option nat :=
   match k with
-  | SiKMetrics => if si_is_listen_fault f then Some 0 else None
+  | SiKMetrics => match f with SfHeldByRouter _ => Some 0 | _ => if si_is_listen_fault f then Some 0 else None end
   | SiKUp _ =>
       match f with
       | SfNoTag => Some 0 | SfDupTag => Some 1 | SfNoAddr => Some 2
@@ -212,13 +229,17 @@ Definition si_fault_stmt (k : si_kind) (f : si_fault) : option nat :=
   | SiKSrv s =>
       match f with
       | SfProto => Some 0
+      | SfHeldByRouter rp =>
+          (* two sockets share an address only when BOTH carry SO_REUSEPORT: configured explicitly (every listener
+             built on controlSocket(cfg.Socket): all but quic), or set by startUdpServer for udp.threads > 1 *)
+          if (rp && si_applies_sockopts s) || si_threads_reuseport s then None else Some (si_listen_stmt s)
       | _ =>
           match s with
-          | SiSrvUdp | SiSrvTcp | SiSrvGnet | SiSrvFast => if si_is_listen_fault f then Some 1 else None
-          | SiSrvHttp => if si_is_listen_fault f then Some 2 else None
-          | SiSrvTls => if si_tls_rejects true f then Some 1 else if si_is_listen_fault f then Some 2 else None
-          | SiSrvHttps => if si_tls_rejects true f then Some 2 else if si_is_listen_fault f then Some 3 else None
-          | SiSrvQuic => if si_tls_rejects true f then Some 1 else if si_is_listen_fault f then Some 2 else None
+          | SiSrvUdp | SiSrvUdpN | SiSrvTcp | SiSrvGnet | SiSrvFast | SiSrvHttp =>
+              if si_is_listen_fault f then Some (si_listen_stmt s) else None
+          | SiSrvTls | SiSrvHttps | SiSrvQuic =>
+              if si_tls_rejects true f then Some (si_listen_stmt s - 1)
+              else if si_is_listen_fault f then Some (si_listen_stmt s) else None
           end
       end
   end.
@@ -248,4 +269,69 @@ Definition si_all_kinds : list si_kind :=
   ++ map (fun b => SiKCache (fst (fst b)) (snd (fst b)) (snd b))
          [(false, false, false); (false, false, true); (false, true, false); (false, true, true);
           (true, false, false); (true, false, true); (true, true, false); (true, true, true)]
-  ++ map SiKSrv [SiSrvUdp; SiSrvTcp; SiSrvGnet; SiSrvHttp; SiSrvFast; SiSrvTls; SiSrvHttps; SiSrvQuic].
+  ++ map SiKSrv [SiSrvUdp; SiSrvUdpN; SiSrvTcp; SiSrvGnet; SiSrvHttp; SiSrvFast; SiSrvTls; SiSrvHttps; SiSrvQuic].
+
+(* =====================================================================================================
+   "address in use" when the holder is another instance of the router.
+   The property names address in use as a start-up error; two instances sharing an address is legitimate only
+   when so_reuseport is configured explicitly.  [si_must_refuse] is that requirement, [si_fault_stmt] is the code.
+   ===================================================================================================== *)
+Definition si_must_refuse (k : si_kind) (rp : bool) : bool :=
+  match k with
+  | SiKMetrics => true
+  | SiKSrv s => negb (rp && si_applies_sockopts s)
+  | _ => false
+  end.
+
+Definition si_refuses (k : si_kind) (rp : bool) : bool :=
+  match si_fault_stmt k (SfHeldByRouter rp) with Some _ => true | None => false end.
+
+(* =====================================================================================================
+   The closers and their peers.  closeImpl calls the closers one after the other; a closer that waits for its
+   peers (clients that are connected, in the middle of a handshake or of a request) returns only when THEY are
+   done, and the closers behind it are not called before.
+     SiNoWait      closes the listening socket(s) / connections and returns (http.Server.Close, net.Listener.Close,
+                   quic.Listener + Transport + socket, gnet engine.Stop, UDP sockets)
+     SiWaitGrace   waits for its peers at most a fixed period (fasthttp: ShutdownWithContext with a 1 s deadline;
+                   before the round-5 fix Shutdown(), bounded only by the server's ReadTimeout of 5 s)
+     SiWaitPeers   waits until its peers are done (http.Server.Shutdown(context.Background()) on a server without
+                   timeouts: the C18-J shape)
+   ===================================================================================================== *)
+Inductive si_wait := SiNoWait | SiWaitGrace | SiWaitPeers.
+
+Definition si_closer_wait (k : si_kind) : option si_wait :=
+  match k with
+  | SiKMetrics => Some SiNoWait                       (* func() { s.Close() } *)
+  | SiKSrv SiSrvFast => Some SiWaitGrace
+  | SiKSrv _ => Some SiNoWait
+  | SiKUp _ => Some SiNoWait
+  | SiKCache _ _ _ => Some SiNoWait
+  | SiKSet | SiKRule => None
+  end.
+
+(* walk over the closers in order; stuck = a peer of that closer never finishes.
+   Result: number of closers that returned, did close return? *)
+Fixpoint si_close_walk (cl : list (si_wait * bool)) : nat * bool :=
+  match cl with
+  | [] => (0, true)
+  | (w, stuck) :: tl =>
+      if (match w with SiWaitPeers => stuck | _ => false end) then (0, false)
+      else let '(n, b) := si_close_walk tl in (S n, b)
+  end.
+
+Definition si_no_peer_wait (cl : list si_wait) : bool :=
+  forallb (fun w => match w with SiWaitPeers => false | _ => true end) cl.
+
+(* the closers of a configuration, each with "a stuck client is attached to this item" *)
+Fixpoint si_closers (items : list (si_kind * bool)) : list (si_wait * bool) :=
+  match items with
+  | [] => []
+  | (k, stuck) :: tl =>
+      match si_closer_wait k with
+      | Some w => (w, stuck) :: si_closers tl
+      | None => si_closers tl
+      end
+  end.
+
+Definition si_close_returns (items : list (si_kind * bool)) : bool :=
+  snd (si_close_walk (si_closers items)).
